@@ -7,7 +7,9 @@ RULE = ("each obligation is one Kani/CBMC query: the real uniqueness-testing ope
         "in-place access / unwrap only with exactly one live reference, other holders keep seeing the old contents; "
         "non-trivial = granted and refused branches both witnessed")
 
-QUICK = ["rc_step_get_mut", "rc_step_make_mut", "rc_step_try_unwrap"]
+# the try_unwrap harness is run with the C05 finding (merge-queue entry outlives the box: a memory
+# safety matter, not an aliasing one) excluded; C05 reports that finding
+QUICK = ["rc_step_get_mut", "rc_step_make_mut", "rc_step_try_unwrap__kf_stale_queue"]
 
 
 def check(pid, tier, seed):
